@@ -2,6 +2,8 @@
    C19_keep_all / C19_remove_all: for arbitrary converters and predicates the in-place compaction loop leaves
    exactly the elements satisfying (not satisfying) the predicate, in their original order (each passed through
    to_json . to_wrapped); the loop invariant is that the write index never overtakes the read index.
+   C19_predicate_called_once_in_order: the predicate is called on every element exactly once, in list order, whatever
+   it answers (the instrumented loop `keep_calls`, whose output the correspondence compares with the call log).
    The other operations are the plain-list primitives of PyPrim.v with the converters at the boundary (definitional
    in DocList.v) and are tied to the code by the correspondence, which also checks that the view operates in
    place on the document's own list object (identity label after every step). *)
@@ -23,3 +25,9 @@ Theorem C19_remove_all :
     map (fun x => to_json (to_wrapped x)) (filter (fun x => negb (is_remove (to_wrapped x))) data).
 Proof. exact remove_all_spec. Qed.
 Print Assumptions C19_remove_all.
+
+Theorem C19_predicate_called_once_in_order :
+  forall (J W : Type) (to_wrapped : J -> W) (to_json : W -> J) (is_keep : W -> bool) (data : list J),
+    keep_calls J W to_wrapped to_json is_keep data = map to_wrapped data.
+Proof. exact keep_calls_spec. Qed.
+Print Assumptions C19_predicate_called_once_in_order.
